@@ -38,7 +38,7 @@ def concerns(ev, verdict):
             s.add("C07")
         elif p in ("ast-modified", "string-changed", "not-repeatable", "history-dependent", "order-dependent"):
             s.add("C05")
-        elif p in ("not-json", "evalbytes-differs", "undefined-mismatch"):
+        elif p in ("not-json", "evalbytes-differs", "undefined-mismatch", "null-reported-as-undefined"):
             s.add("C10")
     return s
 
